@@ -190,7 +190,7 @@ func (c *Ctx) Finish(verifDir, tier string, seed int64, wall float64, explanatio
 	stats := map[string]*RuleStat{}
 	clauses := map[string]map[string]bool{}
 	nviol := 0
-	var knownHit []string
+	knownHit := []string{}
 	distinct := map[string]bool{}
 	for _, o := range c.Obls {
 		rs := stats[o.Rule]
@@ -265,24 +265,30 @@ func (c *Ctx) Finish(verifDir, tier string, seed int64, wall float64, explanatio
 		fl = append(fl, f)
 	}
 	sort.Strings(fl)
+	if c.Exceptions == nil {
+		c.Exceptions = []map[string]string{}
+	}
+	if c.Notes == nil {
+		c.Notes = []string{}
+	}
 	cov := map[string]any{
-		"explanation":         explanation,
-		"evaluations":         total,
-		"distinct_nontrivial": len(distinct),
-		"rule":                "one evaluation = one obligation (rule instance x matched site in the current /repo source); distinct_nontrivial = distinct (rule kind, enclosing function, clause) triples with at least one matched site, counted by the checker on this run",
-		"obligations":         total,
-		"discharged":          disch,
-		"samples":             samples,
-		"packages_loaded":     c.P.NPkgs,
-		"functions_with_body": len(c.P.Funcs),
+		"explanation":                explanation,
+		"evaluations":                total,
+		"distinct_nontrivial":        len(distinct),
+		"rule":                       "one evaluation = one obligation (rule instance x matched site in the current /repo source); distinct_nontrivial = distinct (rule kind, enclosing function, clause) triples with at least one matched site, counted by the checker on this run",
+		"obligations":                total,
+		"discharged":                 disch,
+		"samples":                    samples,
+		"packages_loaded":            c.P.NPkgs,
+		"functions_with_body":        len(c.P.Funcs),
 		"functions_with_obligations": fl,
-		"rules":               rules,
-		"known_findings_hit":  knownHit,
-		"exceptions_used":     c.Exceptions,
-		"notes":               c.Notes,
-		"load_s":              c.P.LoadSecs,
-		"ssa_s":               c.P.SSASecs,
-		"exhaustive":          false,
+		"rules":                      rules,
+		"known_findings_hit":         knownHit,
+		"exceptions_used":            c.Exceptions,
+		"notes":                      c.Notes,
+		"load_s":                     c.P.LoadSecs,
+		"ssa_s":                      c.P.SSASecs,
+		"exhaustive":                 false,
 	}
 	for k, v := range extra {
 		cov[k] = v
